@@ -590,7 +590,11 @@ pub struct SweepOut {
 pub fn sweep_family(seed: u64, f: u64, out: &mut SweepOut) {
     let mut rng = Rng::new(derive(seed, "c12sweep", f));
     let names: &[&str] = if f % 3 == 2 { gen::NAMES_ADV } else { gen::NAMES_PLAIN };
-    let p = DocParams { max_nodes: 6 + rng.below(20), max_depth: 1 + rng.below(4), names, max_width: 5, long_arrays: true };
+    let p = match f % 11 {
+        3 => DocParams { max_nodes: 60 + rng.below(60), max_depth: 2 + rng.below(2), names, max_width: 14, long_arrays: true },
+        7 => DocParams { max_nodes: 40 + rng.below(40), max_depth: 8 + rng.below(6), names, max_width: 3, long_arrays: false },
+        _ => DocParams { max_nodes: 6 + rng.below(20), max_depth: 1 + rng.below(4), names, max_width: 5, long_arrays: true },
+    };
     let doc = gen::gen_doc(&mut rng, &p);
     let mut names_in = vec![];
     gen::names_of(&doc, &mut names_in);
@@ -813,7 +817,12 @@ pub fn gen_corpus_with(seed: u64, n_fam: usize, q_per_fam: usize, adv: bool) -> 
     for f in 0..n_fam {
         let mut rng = Rng::new(derive(seed, "c12doc", f as u64));
         let names: &[&str] = if adv && f % 4 == 3 { gen::NAMES_ADV } else { gen::NAMES_PLAIN };
-        let p = DocParams { max_nodes: 8 + rng.below(23), max_depth: 1 + rng.below(4), names, max_width: 4, long_arrays: true };
+        // size classes: most families are small; some are wide, some big, some deep (still parsable)
+        let p = match f % 7 {
+            3 => DocParams { max_nodes: 60 + rng.below(60), max_depth: 2 + rng.below(2), names, max_width: 14, long_arrays: true },
+            5 => DocParams { max_nodes: 40 + rng.below(40), max_depth: 8 + rng.below(6), names, max_width: 3, long_arrays: false },
+            _ => DocParams { max_nodes: 8 + rng.below(23), max_depth: 1 + rng.below(4), names, max_width: 4, long_arrays: true },
+        };
         let mut base = gen::gen_doc(&mut rng, &p);
         if adv && n_fam >= 8 && f == 1 {
             // the deep family: values nested deeper than 128 levels (hand-built; serde_json cannot parse
@@ -1532,7 +1541,7 @@ pub struct TierCfg {
 pub fn tier(name: &str) -> TierCfg {
     match name {
         "thorough" => TierCfg { name: "thorough", families: 48, q_per_fam: 14, sweep_families: 1_000_000, runs: 400_000, determinism_reruns: 5_000, wall_budget_s: 900.0 },
-        _ => TierCfg { name: "quick", families: 16, q_per_fam: 8, sweep_families: 20_000, runs: 10_000, determinism_reruns: 300, wall_budget_s: 45.0 },
+        _ => TierCfg { name: "quick", families: 16, q_per_fam: 8, sweep_families: 20_000, runs: 8_000, determinism_reruns: 250, wall_budget_s: 40.0 },
     }
 }
 
